@@ -8,6 +8,8 @@ package parser
 import (
 	"encoding/json"
 	"fmt"
+
+	"gen/token"
 )
 
 type verifDumpAct struct {
@@ -19,6 +21,8 @@ type verifDump struct {
 	CanRecover []bool           `json:"can_recover"`
 	Actions    [][]verifDumpAct `json:"actions"`
 	Goto       [][]int          `json:"goto"`
+	TokNames   []string         `json:"tok_names"` // by token type number
+	NTType     map[string]int   `json:"nt_type"`   // head name -> goto column
 }
 
 func init() {
@@ -46,6 +50,13 @@ func VerifDumpTables() {
 			g[k] = gotoTab[s][k]
 		}
 		d.Goto = append(d.Goto, g)
+	}
+	for t := 0; t < numSymbols; t++ {
+		d.TokNames = append(d.TokNames, token.TokMap.Id(token.Type(t)))
+	}
+	d.NTType = map[string]int{}
+	for _, p := range productionsTable {
+		d.NTType[p.Id] = p.NTType
 	}
 	b, _ := json.Marshal(d)
 	fmt.Printf("VERIF-TABLES: %s\n", b)
